@@ -9,6 +9,11 @@ import re
 
 import templates as T
 import panic as PN
+from facts import fmt as _fmt
+
+
+def FX_fmt(o):
+    return _fmt(o, 160)
 
 CRATES = ["sciparse"]
 
@@ -98,3 +103,38 @@ def run(F, R, tier, cfg):
                 and not T.is_test_support(p) and p.startswith("sciparse::proto::dataplane_path"):
             entries.append(p)
     PN.check_entries(F, R, "C12", sorted(set(entries)), cfg)
+    lane_contract(F, R)
+
+
+LANE_FNS = ("sciparse::core::read::unchecked_bit_range_be_read", "sciparse::core::write::unchecked_bit_range_be_write")
+LANE_FLOOR = 25   # 31 call sites counted on 8998145; the floor guards against the rule going vacuous, with room for refactors
+
+
+def lane_contract(F, R):
+    """LANE: the two unsafe bit-lane helpers index a 16-byte lane with `16 - range.size_bytes()`;
+    the panic table relies on size_bytes <= 16.  Checked here: every call site in the functions
+    analysed for C12 passes a compile-time constant BitRange (possibly byte-shifted with
+    BitRange::shift, which preserves the size) whose containing byte range is <= 16 bytes."""
+    for f in LANE_FNS:
+        if f not in F.fns:
+            R.anchor_missing("LANE helper %s" % f)
+    n = 0
+    for p in sorted(R.functions):
+        b = F.body(p)
+        if b is None:
+            continue
+        for c in b.calls_to(set(LANE_FNS)):
+            n += 1
+            o = b.origin(c.args[1])
+            br = PN._const_bitrange(F, o)
+            if br is None and o[0] == "call" and o[1].endswith("::BitRange::shift") and len(o[2]) == 2:
+                br = PN._const_bitrange(F, o[2][0])
+            ok = br is not None and br[0] <= br[1] and (-(-br[1] // 8) - br[0] // 8) <= 16
+            R.ob("LANE", "%s@%s" % (p, c.span.loc), ok, True,
+                 {"rule": "LANE", "fn": p, "loc": c.span.loc, "bit_range": br, "discharged": ok})
+            if not ok:
+                R.violation("LANE", "%s/%s" % (p, FX_fmt(o)),
+                            "call of %s passes a bit range that is not a constant of <= 16 bytes (%s): the 16-byte lane "
+                            "index in the helper can panic" % (c.decl.split("::")[-1], FX_fmt(o)), c.span.loc,
+                            {"fn": p, "range_origin": FX_fmt(o), "bit_range": br})
+    R.floor("LANE", n, LANE_FLOOR, "calls of unchecked_bit_range_be_read/write in the C12 call graph")
